@@ -14,6 +14,7 @@ pub fn streams() -> Vec<Stream> {
         Stream { name: "c17", gen: gen_c17, run: run_c17 },
         Stream { name: "c17_min", gen: gen_min, run: run_min },
         Stream { name: "c17_parse", gen: gen_parse, run: run_parse },
+        Stream { name: "c17_child", gen: gen_child, run: run_child },
     ]
 }
 
@@ -330,4 +331,45 @@ fn gen_parse(rng: &mut Rng, _tier: Tier, n: usize) -> Vec<String> {
         out.push(Sexp::tagged("lvl", vec![Sexp::str(&gen_level_text(rng))]).to_string());
     }
     out
+}
+
+// ------------------------------------------------------------------ Path::is_child_of and Path::segments
+
+fn run_child(line: &str) -> String {
+    (|| -> Option<String> {
+        let s = Sexp::parse(line)?;
+        let (tag, args) = s.as_tagged()?;
+        if tag != "child" || args.len() != 2 {
+            return None;
+        }
+        let (a, b) = (args[0].as_string()?, args[1].as_string()?);
+        let (pa, pb) = (emit::Path::new_ref_raw(&a), emit::Path::new_ref_raw(&b));
+        let segs = |p: &emit::Path| p.segments().map(|s| Sexp::str(s.get()).to_string()).collect::<Vec<_>>().join(" ");
+        Some(format!("{} ({}) ({})", pa.is_child_of(&pb), segs(&pa), segs(&pb)))
+    })()
+    .unwrap_or_else(|| "bad-case".into())
+}
+
+fn gen_child(rng: &mut Rng, _tier: Tier, n: usize) -> Vec<String> {
+    (0..n)
+        .map(|_| {
+            let p = gen_path(rng, 3);
+            let mut c = p.clone();
+            match rng.below(7) {
+                0 => {}
+                1 => c.push(*rng.pick(&SEGS)),
+                2 => { c.pop(); c.push(*rng.pick(&SEGS)); }
+                3 => { if c.len() > 1 { c.pop(); } }
+                4 => c = gen_path(rng, 4),
+                _ => { c.push(*rng.pick(&SEGS)); c.push(*rng.pick(&SEGS)); }
+            }
+            let (mut a, mut b) = (c.join("::"), p.join("::"));
+            // malformed texts too: stray colons, empty segments, multi-byte boundaries
+            if rng.chance(1, 6) {
+                let junk = *rng.pick(&[":", "::", ":::", "é", ""]);
+                if rng.bool() { a.push_str(junk) } else { b.push_str(junk) }
+            }
+            Sexp::tagged("child", vec![Sexp::str(&a), Sexp::str(&b)]).to_string()
+        })
+        .collect()
 }
